@@ -165,7 +165,10 @@ theorem getNum_ok (s : Bytes) (token : Nat) (ht : token ≤ s.size) :
       have : t + 1 < s.size := charAt_nonzero hc1 (by rw [h0x.2]; decide)
       obtain ⟨r, hr, hb⟩ := getHex_ok true s (t + 2) (by omega)
       exact ⟨r, hr, by intro j m h; have := hb j m h; omega⟩
-    · obtain ⟨last, hl⟩ := charAt_ok s (s.size - 1) (by omega)
+    · obtain ⟨w, hw, hw1, hw2⟩ := skipWord_ok s (s.size + 1) t h2 (by omega)
+      rw [hw]
+      simp only
+      obtain ⟨last, hl⟩ := charAt_ok s (w - 1) (by omega)
       rw [hl]
       simp only
       split
@@ -201,10 +204,11 @@ theorem getAddress_ok (lookup : List UInt8 → Option Nat) (bpa : Nat) (s : Byte
   obtain ⟨t, hsk, h1, h2, _⟩ := skipSpaces_ok s (s.size + 1) token ht (by omega)
   rw [hsk]
   simp only
+  obtain ⟨w, hw, h4, h5⟩ := skipWord_ok s (s.size + 1) t h2 (by omega)
+  rw [hw]
+  simp only
   split
-  · obtain ⟨i, hi, h4, h5⟩ := skipWord_ok s (s.size + 1) t h2 (by omega)
-    rw [hi]
-    exact ⟨_, rfl, by intro j h; simp only [Option.some.injEq] at h; omega⟩
+  · exact ⟨_, rfl, by intro j h; simp only [Option.some.injEq] at h; omega⟩
   · obtain ⟨r, hr, hb⟩ := getNum_ok s t h2
     rw [hr]
     cases r with
